@@ -345,3 +345,164 @@ def history_case(item):
             s["error"] = "%s: %s" % (type(e).__name__, str(e)[:160])
         steps.append(s)
     return {"id": item["id"], "steps": steps}
+
+
+# ----------------------------------------------------------------------------- tiny faces (exact shrink map)
+def shrink_x(M, v):
+    """AreaCases!ShrinkX: v -> (M-1)(v.c)c + (c.c)v for c = (1, 0, 0), in unbounded integers."""
+    return (M * v[0], v[1], v[2])
+
+
+def apply_rot(r, v):
+    """SphereZ!ApplyRot: r = (perm, signs), 1-based perm."""
+    p, s = r
+    return tuple(s[i] * v[p[i] - 1] for i in range(3))
+
+
+def _det(a, b, c):
+    return (
+        (a[1] * b[2] - a[2] * b[1]) * c[0]
+        + (a[2] * b[0] - a[0] * b[2]) * c[1]
+        + (a[0] * b[1] - a[1] * b[0]) * c[2]
+    )
+
+
+def _dot(a, b):
+    return a[0] * b[0] + a[1] * b[1] + a[2] * b[2]
+
+
+def fan_descr(F):
+    """AreaCases!FanDescr in unbounded integers (compared with TLC's own values at M = 1, 2, 5)."""
+    a = F[0]
+    return [
+        [_det(a, F[k + 1], F[k + 2]), _dot(a, a), _dot(F[k + 1], F[k + 1]), _dot(F[k + 2], F[k + 2]), _dot(a, F[k + 1]), _dot(a, F[k + 2]), _dot(F[k + 1], F[k + 2])]
+        for k in range(len(F) - 2)
+    ]
+
+
+def _isqrt_f(n):
+    """float sqrt of a (possibly huge) non-negative integer, correctly scaled."""
+    if n < (1 << 1000):
+        return math.sqrt(n)
+    sh = (n.bit_length() - 900) // 2 * 2
+    return math.sqrt(n >> sh) * 2.0 ** (sh // 2)
+
+
+def fan_excess(descr):
+    """Sum over the fan triangles of 2 atan2(det, |a||b||c| + (a.b)|c| + (a.c)|b| + (b.c)|a|)."""
+    tot = []
+    for det, n2a, n2b, n2c, ab, ac, bc in descr:
+        la, lb, lc = _isqrt_f(n2a), _isqrt_f(n2b), _isqrt_f(n2c)
+        den = la * lb * lc + ab * lc + ac * lb + bc * la
+        tot.append(2.0 * math.atan2(float(det), den))
+    return math.fsum(tot)
+
+
+def _face_records(prefix, faces, exacts, buckets, A, extra=None):
+    out = []
+    for k, f in enumerate(faces):
+        ex = exacts[k]
+        a_t = {r: float(A[(r[0], r[1], True)][k]) for r in RULES}
+        a_c = {r: float(A[(r[0], r[1], False)][k]) for r in RULES}
+        rec = {
+            "kind": "face",
+            "id": prefix + f["id"],
+            "n": len(f["dirs"]),
+            "bucket": buckets[k],
+            "neg": any((not v >= 0.0) for v in a_t.values()),
+            "cneg": any((not v >= 0.0) for v in a_c.values()),
+            "czero": all((not (1e-6 * ex < abs(v) <= FOUR_PI)) for v in a_c.values()),
+            "d": quant(a_t[DEFAULT] - ex, ex),
+            "g": [quant(a_t[r] - ex, ex) for r in GAUSS],
+            "t": [quant(a_t[r] - ex, ex) for r in TRI],
+            "cx": qmax(quant(a_c[r] - a_t[r], ex) for r in RULES),
+            "exact": ex,
+            "area": a_t[DEFAULT],
+            "area_cart": a_c[DEFAULT],
+        }
+        if extra:
+            rec.update(extra[k])
+        out.append(rec)
+    return out
+
+
+def tiny_chunk(item):
+    """item: {"faces": [{"id", "dirs", "ex", "fan": {M: descr}}], "rots": RotSeq, "Ms": [big M], "targets": [axis]}
+    -> "face" records (bucket "le10": relative accuracy classes apply to small faces too)."""
+    rots = [(tuple(r[0]), tuple(r[1])) for r in item["rots"]]
+    pick = []
+    for t in item["targets"]:
+        cands = [r for r in rots if apply_rot(r, (1, 0, 0)) == tuple(t)]
+        if not cands:
+            return [{"machinery": "no rotation carries +x to %r" % (t,)}]
+        pick.append((t, cands[0]))
+    soup, meta = [], []
+    for f in item["faces"]:
+        F = [tuple(v) for v in f["dirs"]]
+        for M, d in f["fan"].items():
+            if fan_descr([shrink_x(int(M), v) for v in F]) != [list(x) for x in d]:
+                return [{"machinery": "integer evaluation of FanDescr differs from TLC's for %s at M=%s" % (f["id"], M)}]
+        e1 = fan_excess(fan_descr(F))
+        e0 = L.excess(f["ex"])
+        if abs(e1 - e0) > 1e-12 * max(e0, 1e-3):
+            return [{"machinery": "the two exact formulas disagree on %s: %r vs %r" % (f["id"], e1, e0)}]
+        for M in item["Ms"]:
+            G = [shrink_x(M, v) for v in F]
+            ex = fan_excess(fan_descr(G))
+            if not ex > 0:
+                return [{"machinery": "tiny face %s M=%d has excess %r" % (f["id"], M, ex)}]
+            for t, r in pick:
+                soup.append([apply_rot(r, v) for v in G])
+                meta.append(({"id": "%s|M%d|to%s" % (f["id"], M, "".join(map(str, t))), "dirs": soup[-1]}, ex, {"M": M, "to": list(t), "dirs": [list(v) for v in soup[-1]]}))
+    try:
+        g = soup_grid(soup)
+        A = all_areas(g, (True, False))
+    except Exception as e:  # noqa
+        return [{"error": "%s: %s" % (type(e).__name__, str(e)[:300]), "ids": [m[0]["id"] for m in meta[:3]], "n": len(meta)}]
+    return _face_records("tiny:", [m[0] for m in meta], [m[1] for m in meta], ["le10"] * len(meta), A, [m[2] for m in meta])
+
+
+# ----------------------------------------------------------------------------- coordinate provenance
+def prov_chunk(item):
+    """Grids whose nodes come from xyz only (from_face_vertices(latlon=False)) and from both lon/lat and
+    xyz (from_topology with node_x/y/z): the same faces, the same clauses."""
+    import numpy as np
+
+    ux = hux.import_ux()
+    _, FILL = hux.consts()
+    faces = item["faces"]
+    exacts = [L.excess(f["ex"]) for f in faces]
+    out = []
+    try:
+        # both: lon/lat and xyz supplied
+        ids, lon, lat, xyz, conn = {}, [], [], [], []
+        for f in faces:
+            row = []
+            for v in f["dirs"]:
+                k = _key(v)
+                if k not in ids:
+                    ids[k] = len(lon)
+                    lo, la = L.lonlat_deg(k)
+                    lon.append(lo)
+                    lat.append(la)
+                    xyz.append(L.unit(k))
+                row.append(ids[k])
+            conn.append(row)
+        xyz = np.array(xyz, dtype=float)
+        g = ux.Grid.from_topology(
+            np.array(lon), np.array(lat), hux.pad_table(conn), fill_value=FILL, node_x=xyz[:, 0].copy(), node_y=xyz[:, 1].copy(), node_z=xyz[:, 2].copy()
+        )
+        out += _face_records("both:", faces, exacts, [f["bucket"] for f in faces], all_areas(g, (True, False)))
+        # xyz only, one grid per face size (from_face_vertices takes a rectangular array)
+        by_n = {}
+        for k, f in enumerate(faces):
+            by_n.setdefault(len(f["dirs"]), []).append(k)
+        for n, ks in sorted(by_n.items()):
+            verts = np.array([[L.unit(_key(v)) for v in faces[k]["dirs"]] for k in ks], dtype=float)
+            gx = ux.Grid.from_face_vertices(verts, latlon=False)
+            if int(gx.n_face) != len(ks):
+                return [{"machinery": "from_face_vertices built %d faces from %d" % (int(gx.n_face), len(ks))}]
+            out += _face_records("xyz:", [faces[k] for k in ks], [exacts[k] for k in ks], [faces[k]["bucket"] for k in ks], all_areas(gx, (True, False)))
+    except Exception as e:  # noqa
+        return [{"error": "%s: %s" % (type(e).__name__, str(e)[:300]), "ids": [f["id"] for f in faces[:3]], "n": len(faces)}]
+    return out
